@@ -20,7 +20,9 @@ RULE = ('1-6 counting handles stored in a ResourceMap at plain and nested '
         'was False, every access of an epoch returns the identical object '
         'load() returned, after clear() the next access loads afresh. '
         'Non-trivial = >=2 distinct access paths to one handle within an '
-        'epoch with a falsy or hostile value, or >=2 epochs.')
+        'epoch with a falsy or hostile value, or >=2 epochs.'
+        ' Rounds 11-13 added: paths with leading underscores; `cached` read'
+        ' from inside load().')
 ANCHORS = [
     'desper/model/tree.py::Handle.__call__',
     'desper/model/tree.py::Handle.clear',
